@@ -179,7 +179,10 @@ class Check:
             repo=C.REPO,
         )
         if self.exhaustive is not None:
-            cov["exhaustive"] = self.exhaustive
+            # functions that scale an index by a constant (a hand-written bisection) are outside the order-type
+            # argument: for them the enumeration is complete up to the size bound only
+            cov["exhaustive"] = bool(self.exhaustive) and not self.notes.get(
+                "index_arithmetic_outside_order_type_fragment")
         cov.update(self.notes)
         if self.known_hits:
             cov["known_findings_matched"] = [v["at"] for _, v in self.known_hits]
